@@ -510,6 +510,8 @@ class Impl:
         self.kern = SimKernel(btime)
         self.objs = []
         self.idx = {}        # id(Process object) -> index in self.objs (objects are kept alive by self.objs)
+        self.ghosts = []     # per object: owner of its PID at the moment the implementation built it
+        self.last_aux = None
         self.cms = {}
         self.log = []
         self.render_stat()
@@ -526,6 +528,7 @@ class Impl:
                 self.render_stat()
             return {"kind": "unit"}, []
         n0 = len(self.log)
+        self.last_aux = self._aux(op)
         self.patch()
         try:
             out = self._call(op)
@@ -539,10 +542,23 @@ class Impl:
             self.unpatch()
         return out, self.log[n0:]
 
+    def _aux(self, op):
+        """what the specification needs to know about the implementation's own objects named by this call
+        (used only by `after_drift`)"""
+        i, j = op.get("i"), op.get("j")
+        if i is None or i >= len(self.objs):
+            return None
+        pid = self.objs[i].pid
+        aux = {"pid": pid, "ghost": self.ghosts[i], "owner": self.kern.owner(pid)}
+        if j is not None and j < len(self.objs):
+            aux["pid2"], aux["ghost2"] = self.objs[j].pid, self.ghosts[j]
+        return aux
+
     def _handle(self, p):
         i = self.idx.get(id(p))
         if i is None:
             self.objs.append(p)
+            self.ghosts.append(self.kern.owner(p.pid))
             i = self.idx[id(p)] = len(self.objs) - 1
         return i
 
@@ -741,7 +757,7 @@ FINDING_STR = "C02-str-stale-handle"
 def in_str_region(row):
     """region of the known finding C02-str-stale-handle: str(p) of an object whose incarnation is gone shows
     something else than 'terminated…' (the state of whoever holds the PID now)"""
-    o, im, _ie, _mo, _me, sp = row
+    o, im, _ie, _mo, _me, sp = row[:6]
     return (o["op"] == "status" and sp.get("listed") is False and im.get("kind") == "status"
             and not im["v"].startswith("terminated"))
 
@@ -770,7 +786,7 @@ def run_histories(ctx, impl, hists, driver_file=None):
             if o["op"] in ONESHOT_OPS and im.get("exc") == "badCall":
                 # model: `Call.oneshot` is the identity on every state (C02_oneshot_identity), whatever the index
                 im = {"kind": "unit"}
-            rows.append((o, im, [norm_eff(e) for e in effs], m["model"]["out"], m["model"]["eff"], m["spec"]))
+            rows.append((o, im, [norm_eff(e) for e in effs], m["model"]["out"], m["model"]["eff"], m["spec"], impl.last_aux))
         pm = outs[i]
         i += 1
         res.append({"rows": rows, "pairs": (impl.pairs(), pm["model"], pm["spec"])})
@@ -790,11 +806,60 @@ def validation_drift(op, im, ie, mo, me, sp):
     return False
 
 
+def after_drift(result, n0, prop, sticky):
+    """The implementation has left the model at step n0, so what the driver prints from there on (model AND spec:
+    the ghost fields live in the model's state) no longer describes the implementation's objects.  To still name a
+    concrete failing input, the rest of the history is judged by the specification evaluated on the implementation's
+    own objects: ghost of an object = owner of its PID when the implementation built it (C02_ghost_meaning /
+    C02_iter_ghost_meaning), recorded by `Impl._handle`; `owner` = owner of the PID when the call was made."""
+    if prop not in ("C01", "C02"):
+        return None
+    depth = {}
+    sticky = dict(sticky)
+    for n, (o, im, ie, mo, me, sp, aux) in enumerate(result["rows"]):
+        k = o["op"]
+        if k == "enter":
+            depth[o["i"]] = depth.get(o["i"], 0) + 1
+        elif k == "leave":
+            depth[o["i"]] = max(0, depth.get(o["i"], 0) - 1)
+        if n < n0 or aux is None:
+            continue
+        why = None
+        listed = aux["owner"] is not None and aux["owner"] == aux["ghost"]
+        if prop == "C02":
+            if k == "is_running" and im.get("kind") == "bool":
+                if im["v"] != listed:
+                    why = "is_running must be %s for this incarnation" % listed
+                elif im["v"] and sticky.get(o["i"]) is False:
+                    why = "is_running() became True again after it had been False"
+                sticky[o["i"]] = im["v"]
+            if k == "eq" and im.get("kind") == "bool" and "pid2" in aux:
+                same = aux["pid"] == aux["pid2"] and aux["ghost"] == aux["ghost2"]
+                if im["v"] != same:
+                    why = "== must be %s for these incarnations" % same
+        if prop == "C01" and k in ("signal", "setter"):
+            for e in ie:
+                if e["kind"] == "kill" and e["pid"] <= 0:
+                    why = "signal sent to PID %d (a process group)" % e["pid"]
+                elif e["pid"] != aux["pid"]:
+                    why = "effect on PID %d, object has PID %d" % (e["pid"], aux["pid"])
+                elif e["owner"] != aux["ghost"]:
+                    why = "delivered to incarnation %r, object was built for incarnation %r" % (e["owner"], aux["ghost"])
+            if not listed and not ie and not (im.get("kind") == "exc" and im.get("exc") == "NoSuchProcess"
+                                               and im.get("pid") == aux["pid"]):
+                why = "recycled/ended process: NoSuchProcess(%d) expected" % aux["pid"]
+        if why:
+            return ("spec", n, {"out": im, "eff": ie}, {"out": mo, "eff": me},
+                    {"harness_side": True, "pid": aux["pid"], "ghost": aux["ghost"], "owner_now": aux["owner"]},
+                    why + " (judged on the implementation's own objects: it left the model at step %d)" % n0)
+    return None
+
+
 def first_problem(result, prop, drift=None):
     """('spec'|'model', step index or None, impl, model, spec, note) for the first disagreement, else None"""
     sticky = {}
     depth = {}
-    for n, (o, im, ie, mo, me, sp) in enumerate(result["rows"]):
+    for n, (o, im, ie, mo, me, sp, _aux) in enumerate(result["rows"]):
         if o["op"] == "enter":
             depth[o["i"]] = depth.get(o["i"], 0) + 1
         elif o["op"] == "leave":
@@ -821,6 +886,9 @@ def first_problem(result, prop, drift=None):
                 if drift is not None:
                     drift.append(n)
                 continue
+            later = after_drift(result, n, prop, sticky)
+            if later:
+                return later
             return ("model", n, {"out": im, "eff": ie}, {"out": mo, "eff": me}, sp, "implementation differs from the Lean model")
     ip, mp, sp = result["pairs"]
     n = len(ip["hash"])
@@ -1319,7 +1387,7 @@ def exhaustive_iter(maxlen, btime=1000):
 def features(h, result):
     """which clauses of the properties a history exercised"""
     f = set()
-    for (o, im, ie, mo, me, sp) in result["rows"]:
+    for (o, im, ie, mo, me, sp, _aux) in result["rows"]:
         k = o["op"]
         if k in ("signal", "setter") and "listed" in sp:
             f.add("call_live" if sp["listed"] else "call_recycled_or_gone")
